@@ -105,7 +105,30 @@ func intern(t *Term) *Term {
 	t.id = termNext
 	termNext++
 	termTab[k] = t
+	if internLogging {
+		internLog = append(internLog, k)
+	}
 	return t
+}
+
+// Scratch terms: terms interned between termMark and termRelease are dropped from the table again
+// (used for the millions of ground instance terms of the case-split engine).
+var (
+	internLogging bool
+	internLog     []string
+)
+
+func termMark() {
+	internLogging = true
+	internLog = internLog[:0]
+}
+
+func termRelease() {
+	for _, k := range internLog {
+		delete(termTab, k)
+	}
+	internLog = internLog[:0]
+	internLogging = false
 }
 
 func Sym(name, srt string) *Term   { return intern(&Term{Op: "sym", Name: name, Sort: srt}) }
